@@ -628,7 +628,7 @@ def scenarios(tier):
     template under the all-(occ, no spin) assignment with every delta/factor order and every target mode (4-index
     templates: convention and Index-list targets; three deltas: given factor order), and the
     templates PAIRS over all 81 assignments in the given factor order with convention / Index-list targets; of the rest a deterministic
-    hash sample per template (quick: about 100, thorough: about 2500)."""
+    hash sample per template (quick: about 50, thorough: about 1200)."""
     full = tier == "thorough"
     for name, (n, spec) in list(TEMPLATES.items()) + list(SUMS.items()):
         is_sum = name in SUMS
@@ -664,7 +664,7 @@ def scenarios(tier):
                 r = targets_of(alg, idx, e, mode)
                 if r is not None and precondition(alg, e, r[0]):
                     cands.extend((types, v, mode) for v in variants)
-        goal = (2500 if full else 40 if name in TRIVIAL else 100 if n <= 3 else 60)
+        goal = (1200 if full else 40 if name in TRIVIAL else 100 if name in PAIRS else 50)
         p = min(1.0, goal / max(1, len(cands)))
         for k, (types, (flip, rev), mode) in enumerate(cands):
             plain = mode == "sum" or mode[0] == "list"
